@@ -32,7 +32,7 @@ func header(in string) bool {
 	p, e := in[:len(in)-1], in[len(in)-1]
 	switch e {
 	case '.', ':', ')':
-		if listMarker[p] {
+		if listMarker[strings.ToLower(p)] {
 			if e != ')' {
 				return true
 			}
